@@ -1206,12 +1206,16 @@ def run(chk, replay=None):
     return chk.finish(
         level="proof",
         checker_cmd="lake build Vita.C09.Props c09_driver && lake env lean <#print axioms for every theorem>",
-        rule="generated rectangular tables (1-60 rows, 1-12 columns, numeric/text/mixed columns, 6 delimiters, "
-             "header on/off, every output index and none, random quoting, CR LF, blank lines, filter) as CSV and "
-             "XRFF, sniffer inputs, raw parser lines, variables of setup_terminals evaluated on the examples; "
-             "each is compared with the table (oracle) and with the Lean model; distinct_nontrivial = distinct "
-             "request lines whose import succeeded with >= 1 example and >= 2 columns (csv/xrff/var), whose "
-             "text has a quote (parse), whose file has >= 2 lines (sniff)",
+        rule="generated rectangular tables (1-60 rows, 1-12 columns, numeric/text/mixed columns; families general / "
+             "delimiter-clear / numeric column names / capitalised first row / unambiguous) read with every combination of "
+             "{explicit, sniffed} delimiter x {header(), no_header(), guessed}, trim_ws, quoting keep/remove, every output "
+             "index and none, row hooks (content, position-weighted, one cell, upper-case a cell, swap two cells), random "
+             "quoting, CR LF, blank lines - as CSV, as XRFF (handled and unhandled attribute types, class attribute "
+             "first/middle/last/default, junk dialect/output_index) and through dataframe::read by extension; sniffer "
+             "inputs, raw parser lines, setup_terminals on CSV/XRFF data (variables, state constants, categories, both "
+             "typings); each is compared with the table (oracle) and with the Lean model; distinct_nontrivial = distinct "
+             "request lines whose import succeeded with >= 1 example and >= 2 columns (csv/xrff/file/var), whose text has a "
+             "quote (parse), whose file has >= 2 lines (sniff)",
         trusted=["Lean 4.33 kernel", "hand-written model Vita/C09/{Csv,Model}.lean (tied by the differential run)",
                  "harness/c09_read.cc + checks/c09.py (generator, table oracle, canonical dumps)",
                  "strtod/std::stod/std::stoi (uninterpreted in the model, values supplied by the harness)",
